@@ -481,6 +481,21 @@ impl Asset for TWide {
     type Loader = TWideLoader;
 }
 
+/// A wide `Copy` value (512 words all equal to the parsed integer), read with copied() / cloned().
+#[derive(Clone, Copy)]
+pub struct TWideC(pub [u64; 512]);
+pub struct TWideCLoader;
+impl Loader<TWideC> for TWideCLoader {
+    fn load(content: Cow<[u8]>, _ext: &str) -> Result<TWideC, BoxedError> {
+        let n = parse_int(&content)?;
+        Ok(TWideC([n as u64; 512]))
+    }
+}
+impl Asset for TWideC {
+    const EXTENSION: &'static str = "wc";
+    type Loader = TWideCLoader;
+}
+
 /// Storable-only value (for get_or_insert)
 #[derive(Debug)]
 pub struct SVal(pub V);
